@@ -259,6 +259,8 @@ def gen(rng, tier, shard, batch):
     # the 2^64 corners of the quotient-digit correction (constructed algebraically, see vf/knuth.py)
     corner, _stats = K.corner_requests(rng, 12 if tier == "quick" else 30)
     reqs += corner
+    reqs += K.small_divisor_top_word_requests(rng, 20 if tier == "quick" else 60)
+    reqs += K.api_corner_requests(rng, 6, G.fD) + K.hi_eq_divisor_requests(rng, 6, G.fD)
     reqs.append("mode RoundHalfEven")
     per_mode = N_RANDOM[tier] // 16
     for mode in MODES:
